@@ -20,10 +20,13 @@ try:
             continue
         path = "/repo/" + m["file"]
         src = open(path).read()
-        n = src.count(m["old"])
-        if n != m.get("count", 1):
-            print(f'{m["id"]}: pattern found {n} times (expected {m.get("count",1)}), skipped'); continue
-        open(path, "w").write(src.replace(m["old"], m["new"]))
+        edits = m.get("edits") or [{"old": m["old"], "new": m["new"]}]
+        bad = [e["old"][:40] for e in edits if src.count(e["old"]) != m.get("count", 1)]
+        if bad:
+            print(f'{m["id"]}: pattern not found exactly once: {bad}, skipped'); continue
+        for e in edits:
+            src = src.replace(e["old"], e["new"])
+        open(path, "w").write(src)
         row = {}
         for p in m["props"]:
             t = time.time()
